@@ -561,6 +561,20 @@ func c15Sample(p *ana.Prog, r *ana.Result) {
 					}
 				}
 			})
+			// k = min(k, n)
+			ana.Instrs(fn, func(in ssa.Instruction) {
+				if c := isBuiltinCall(in, "min"); c != nil && len(c.Call.Args) == 2 {
+					names := map[string]bool{}
+					for _, a := range c.Call.Args {
+						if pr, ok := a.(*ssa.Parameter); ok {
+							names[pr.Name()] = true
+						}
+					}
+					if names["k"] && names["n"] {
+						capped = true
+					}
+				}
+			})
 			if !capped {
 				ok, why = false, "k is not capped at n (more clients than paths would take part)"
 			}
